@@ -7,6 +7,67 @@ from contracts import commitpath as cp
 from pyvc.runner import Unit, register
 
 P = "C06"
+
+
+def _replay_gcrace(ob):
+    """bounded stand-in / witness replay for GC-RG: one collector, one writer whose data file is older than the grace period;
+    the writer's whole commit (and, separately, its rollback) is scheduled before the k-th storage operation of the collector,
+    for every k the collector performs."""
+    return '''
+import sys, os, time, tempfile, shutil
+from datashard import create_table
+from datashard.data_structures import Schema
+import datashard.storage_backend as sb
+OPS = ["list_files", "read_file", "exists", "open_file", "get_modified_time", "delete_file", "read_json", "get_size"]
+bad = []
+def run(k, action):
+    root = tempfile.mkdtemp(prefix="pyvc_replay_")
+    try:
+        t = create_table(os.path.join(root, "t"), schema=Schema(schema_id=1, fields=[{"id": 1, "name": "a", "type": "long", "required": False}]))
+        t.append_records([{"a": 1}])
+        tx = t.new_transaction().begin(); tx.append_data([{"a": 2}])
+        old = time.time() - 7200
+        for d, _s, fs in os.walk(os.path.join(root, "t", "data")):
+            for f in fs: os.utime(os.path.join(d, f), (old, old))
+        cls = type(t.storage); n = {"ops": 0, "armed": True}; saved = {}
+        def wrap(name):
+            orig = getattr(cls, name)
+            def w(self, *a, **kw):
+                if n["armed"] and self is t.storage:
+                    if n["ops"] == k:
+                        n["armed"] = False
+                        (tx.commit if action == "commit" else tx.rollback)()
+                        n["armed"] = True; n["ops"] += 1
+                        return orig(self, *a, **kw)
+                    n["ops"] += 1
+                return orig(self, *a, **kw)
+            saved[name] = orig; setattr(cls, name, w)
+        for name in OPS:
+            if hasattr(cls, name): wrap(name)
+        try:
+            try: t.garbage_collect(grace_period_ms=3600_000)
+            except Exception as e: pass
+        finally:
+            n["armed"] = False
+            for name, orig in saved.items(): setattr(cls, name, orig)
+        fired = n["ops"] > k
+        if not fired and action == "commit": tx.commit()
+        if action == "commit":
+            try:
+                got = sorted(r["a"] for r in t.scan())
+                if got != [1, 2]: bad.append((action, k, "rows", got))
+            except Exception as e:
+                bad.append((action, k, "scan failed: " + repr(e)[:100]))
+        return fired
+    finally:
+        shutil.rmtree(root, ignore_errors=True)
+for action in ("commit", "rollback"):
+    k = 0
+    while run(k, action) and k < 200: k += 1
+    print(action, "schedules explored:", k)
+print("replay gcrace ->", bad[:4] or "ok")
+sys.exit(1 if bad else 0)
+'''
 META = dict(cp.META)
 META["trusted"] = list(META["trusted"]) + [
     "lemma STABLE (meta-argument): under g1-g3 a file that exists, is unreachable, unprotected and will not be committed stays so; with "
@@ -18,10 +79,68 @@ register(Unit(P, "GUAR-tx/append_data", cp.h_append_data, functions=TXF("append_
 for k in ("manifest", "list"):
     register(Unit(P, f"GUAR-tx/create_{k}", cp.h_create_manifest(k),
                   functions=[f"{cp.FMOD}:FileManager.create_manifest_file" if k == "manifest" else f"{cp.FMOD}:FileManager.create_manifest_list_file"], replay=gc._replay_markers))
+
+
+def _replay_retry(ob):
+    """a writer loses one OCC round; the collector runs during the writer's back-off sleep (grace 1 h, data file 2 h old)"""
+    return '''
+import sys, os, time, tempfile, shutil
+from datashard import create_table, load_table
+from datashard.data_structures import Schema
+bad = []
+root = tempfile.mkdtemp(prefix="pyvc_replay_")
+try:
+    p = os.path.join(root, "t")
+    t = create_table(p, schema=Schema(schema_id=1, fields=[{"id": 1, "name": "a", "type": "long", "required": False}]))
+    t.append_records([{"a": 1}])
+    tx = t.new_transaction().begin(); tx.append_data([{"a": 2}])
+    old = time.time() - 7200
+    for d, _s, fs in os.walk(os.path.join(p, "data")):
+        for f in fs: os.utime(os.path.join(d, f), (old, old))
+    other = load_table(p)
+    real_refresh = type(tx.metadata_manager).refresh
+    state = {"n": 0}
+    def refresh(self):
+        m = real_refresh(self)
+        if self is tx.metadata_manager and state["n"] == 0:
+            state["n"] = 1
+            other.append_records([{"a": 3}])          # the competing commit lands after our base was read -> conflict
+        return m
+    type(tx.metadata_manager).refresh = refresh
+    real_sleep = time.sleep
+    def sleep(x):
+        if state["n"] == 1:
+            state["n"] = 2
+            for d, _s, fs in os.walk(os.path.join(p, "metadata", "manifests")):
+                for f in fs: os.utime(os.path.join(d, f), (old, old))
+            try: load_table(p).garbage_collect(grace_period_ms=3600_000)
+            except Exception as e: print("gc raised", repr(e)[:100])
+    time.sleep = sleep
+    try:
+        tx.commit()
+    except Exception as e:
+        bad.append("commit failed after the collector ran during its back-off: " + repr(e)[:120])
+    finally:
+        time.sleep = real_sleep; type(tx.metadata_manager).refresh = real_refresh
+    if state["n"] != 2: print("note: no conflict retry happened (schedule not exercised)")
+    try:
+        got = sorted(r["a"] for r in load_table(p).scan())
+        if got != [1, 2, 3]: bad.append(("rows", got))
+    except Exception as e:
+        bad.append("scan failed after commit: " + repr(e)[:120])
+finally:
+    shutil.rmtree(root, ignore_errors=True)
+print("replay retry/markers ->", bad or "ok")
+sys.exit(1 if bad else 0)
+'''
+
+
 for kind in ("file-ops",):
-    register(Unit(P, f"GUAR-tx/Transaction.commit-{kind}", cp.h_tx_commit(kind, False), functions=TXF("commit"), replay=cp._replay_tx))
+    register(Unit(P, f"GUAR-tx/Transaction.commit-{kind}", cp.h_tx_commit(kind, False), functions=TXF("commit"), replay=_replay_retry))
 register(Unit(P, "GUAR-tx/_finish_committed", cp.h_finish_committed, functions=TXF("_finish_committed"), replay=cp._replay_tx))
 register(Unit(P, "GUAR-tx/_rollback", cp.h_rollback(True), functions=TXF("_rollback"), replay=cp._replay_tx))
 for mode in ("both",):
     register(Unit(P, f"GUAR-tx/_commit_file_ops-{mode}", cp.h_commit_file_ops(mode), functions=TXF("_commit_file_ops"), replay=cp._replay_tx))
-register(Unit(P, "GC-RG/collect", gc.h_collect(False), functions=[f"{gc.GC}:GarbageCollector.collect"], replay=gc._replay_collect, reg_factory=gc.registry))
+register(Unit(P, "GC-RG/_load_inflight_protection", gc.h_load_inflight(False), functions=[f"{gc.GC}:GarbageCollector._load_inflight_protection"], replay=gc._replay_markers))
+register(Unit(P, "GC-RG/_marker_target", gc.h_marker_target(False), functions=[f"{gc.GC}:GarbageCollector._marker_target"], replay=gc._replay_markers))
+register(Unit(P, "GC-RG/collect", gc.h_collect(False), functions=[f"{gc.GC}:GarbageCollector.collect"], replay=_replay_gcrace, reg_factory=gc.registry))
